@@ -407,6 +407,13 @@ class kFlowDecomp(pathmodel.AbstractPathModelDAG):
                 if gu.max_occurrence(subpath, paths, edge_lengths={(u,v): self.G[u][v].get(self.length_attr, 1) for (u,v) in subpath if self.G.has_edge(u, v)}) < constraint_length * coverage_fraction:
                     return False
         
+        # The greedy weights have the numeric type of the input flow values; with weight_type int they must be
+        # (returned as) integers, and a greedy decomposition with non-integral weights cannot be used
+        if self.weight_type == int:
+            if not all(float(weight).is_integer() for weight in weights):
+                return False
+            weights = [int(weight) for weight in weights]
+
         if len(paths) <= self.k:
             # If paths contains strictly less than self.k paths, 
             # then we add arbitrary paths (i.e. we repeat the first path) with 0 weights to reach self.k paths.
